@@ -178,12 +178,16 @@ AttachAttackers(g) ==
   /\ \A k \in DOMAIN vAtk : vAtk[k].name # NONE
   /\ Set(g, AttachFrom(gS[g], 1, gNextH), [op |-> "AttachAttackers", g |-> g, a0 |-> gNextH, res |-> "ok"])
   /\ BumpG(Len(vAtk))
-AddGAttacker(g, reqId) ==
-  /\ gS[g].exists /\ Len(gS[g].atk) < GMaxAtk
-  /\ IF reqId # NoId /\ reqId \in GAtkIds(gS[g])
-     THEN Set(g, gS[g], [op |-> "AddGAttacker", g |-> g, h |-> gNextH, reqId |-> reqId, res |-> "exc"])
-     ELSE Set(g, DoAddAttacker(gS[g], gNextH, IF reqId # NoId THEN reqId ELSE gS[g].nextAtk, IF reqId # NoId THEN "gb" ELSE "ga", {}, {}),
-              [op |-> "AddGAttacker", g |-> g, h |-> gNextH, reqId |-> reqId, res |-> "ok"])
+\* ws: the caller also names steps: the first node as entry point, the first and the last node as reached steps (the
+\* replay lists a reached step twice: compromising twice changes nothing)
+AddGAttacker(g, reqId, ws) ==
+  /\ gS[g].exists /\ Len(gS[g].atk) < GMaxAtk /\ (ws => gS[g].nodes # <<>>)
+  /\ LET E == IF ws THEN {gS[g].nodes[1].h} ELSE {}
+         R == IF ws THEN {gS[g].nodes[1].h, gS[g].nodes[Len(gS[g].nodes)].h} ELSE {} IN
+     IF reqId # NoId /\ reqId \in GAtkIds(gS[g])
+     THEN Set(g, gS[g], [op |-> "AddGAttacker", g |-> g, h |-> gNextH, reqId |-> reqId, res |-> "exc", e |-> E, r |-> R])
+     ELSE Set(g, DoAddAttacker(gS[g], gNextH, IF reqId # NoId THEN reqId ELSE gS[g].nextAtk, IF reqId # NoId THEN "gb" ELSE "ga", E, R),
+              [op |-> "AddGAttacker", g |-> g, h |-> gNextH, reqId |-> reqId, res |-> "ok", e |-> E, r |-> R])
   /\ BumpG(1)
 RemoveGAttacker(g, a) ==
   /\ gS[g].exists /\ a \in AtkHs(gS[g])
@@ -206,7 +210,7 @@ DeepCopy ==
 \* save + load: the loaded graph (fresh objects, handles h + off) replaces the slot; same abstract content
 SaveLoad(g, fmt, withModel) ==
   /\ gS[g].exists /\ g = "main"
-  /\ \A k \in DOMAIN gS[g].nodes : gS[g].nodes[k].asset # 0       \* asset-less nodes have id-derived names
+  \* (nodes without an asset - added by hand, or loaded without the model - are named by their id, which the file keeps)
   /\ gS' = [gS EXCEPT ![g] = Reloaded(IF withModel THEN MapH(gS[g], gNextH) ELSE Unbound(MapH(gS[g], gNextH)))]
   /\ gAct' = [op |-> "SaveLoad", g |-> g, fmt |-> fmt, withModel |-> withModel, off |-> gNextH, res |-> "ok"]
   /\ gNextH' = gNextH + 2000 /\ UNCHANGED mvars
@@ -234,7 +238,7 @@ GraphNext ==
   \/ On("Prune") /\ \E g \in Slots : Prune(g)
   \/ On("Analyse") /\ \E g \in Slots : Analyse(g)
   \/ On("AttachAttackers") /\ AttachAttackers("main")
-  \/ On("AddGAttacker") /\ \E g \in Slots, i \in GIdPool : AddGAttacker(g, i)
+  \/ On("AddGAttacker") /\ \E g \in Slots, i \in GIdPool, ws \in BOOLEAN : AddGAttacker(g, i, ws)
   \/ On("RemoveGAttacker") /\ \E g \in Slots : \E a \in AtkHs(gS[g]) : RemoveGAttacker(g, a)
   \/ On("Compromise") /\ \E g \in Slots : \E a \in AtkHs(gS[g]), h \in NodeHs(gS[g]), sd \in {"attacker", "node"} : Compromise(g, a, h, sd)
   \/ On("Undo") /\ \E g \in Slots : \E a \in AtkHs(gS[g]), h \in NodeHs(gS[g]), sd \in {"attacker", "node"} : Undo(g, a, h, sd)
